@@ -213,6 +213,31 @@ class ContainerCalls:
             acc = args[2]
             lo, hi = s.length.lo, s.length.hi
         I.hook("fold", node, "reduce", s, elem, f)
+        # recognise a commutative additive fold by evaluating f on two probes (value numbering, no execution)
+        fold_sym = None
+        en = I.as_num(elem)
+        additive = False
+        if en is not None:
+            px = Num(kinds=en.kinds, sym=("param", "$X"))
+            py = Num(kinds=en.kinds, sym=("param", "$Y"))
+            stp = state.copy()
+            saved = (I.events, I.diags, I.obligations, I.raises, I.hooks, I.undecided)
+            I.events, I.diags, I.obligations, I.raises, I.hooks, I.undecided = [], {}, {}, [], {}, []
+            try:
+                pr = I.call_value(f, [px, py], {}, node, stp)
+            finally:
+                I.events, I.diags, I.obligations, I.raises, I.hooks, I.undecided = saved
+            if isinstance(pr, Num) and pr.sym in (("add", ("param", "$X"), ("param", "$Y")), ("add", ("param", "$Y"), ("param", "$X"))):
+                additive = True
+        full = not (s.flags & {"partial", "reordered", "building", "weak-append", "cond-append", "multi-append", "unmodelled"})
+        if additive and not has_init and s.length.term is not None and full:
+            fvn = f"$f{I.site_id('fold', node)}"
+            es = subst_val(s.elem, {s.kvar: ivar(fvn)})
+            if isinstance(es, Num) and es.sym is not None:
+                from .values import mk_sym as _mk
+
+                fold_sym = _mk("fold", ("const", "+"), ("const", fvn), es.sym, ("lenterm", s.length.term))
+        I.event("fold", node, how="reduce", seq=s, elem=elem, sym=fold_sym, full=full, additive=additive)
         I.event("reduce", node, fn=f, seq=s, has_init=has_init)
         results: Val = Bottom()
         k = 0
@@ -247,7 +272,7 @@ class ContainerCalls:
                 results = join_val(results, acc)
                 break
         if isinstance(results, Num):
-            results = replace(results, sym=None, const=None)
+            results = replace(results, sym=fold_sym, const=None)
         return results
 
     # ==================================================================================
@@ -278,7 +303,11 @@ class ContainerCalls:
             cnt_lo //= 2
             cnt_hi = cnt_hi / 2 if cnt_hi < INF else INF
         length = Length(("pairs" if ordered else "upairs", s.length.term), cnt_lo, cnt_hi)
-        res = Seq(length, TupleV((a, b)), "k", None, None, s.flags | {"pairs" if ordered else "upairs"}, "iter")
+        pk = f"kp{I.site_id('pairs', node)}"
+        a = subst_val(s.elem, {kv: ("pa", ivar(pk))})
+        b = subst_val(s.elem, {kv: ("pb", ivar(pk))})
+        res = Seq(length, TupleV((a, b)), pk, None, None, s.flags | {"pairs" if ordered else "upairs"}, "iter")
+        I.pairs_base[s.length.term] = s.length
         I.event("pairs", node, base=s, ordered=ordered, result=res)
         return res
 
